@@ -200,14 +200,26 @@ pub enum Ffi {
 }
 
 /// Parse (V2) + compile (debug mode). `Err` carries the first line of the front-end's message.
+/// A host panic inside the front end is reported as `Err("front-end panic: …")`: it is C27's
+/// subject (front ends are total), not a verdict of the checks here.
 pub fn compile_text(src: &str, ffi: Ffi) -> Result<Module, String> {
-    let ast = parse_policy_str(src, Version::V2).map_err(|e| format!("parse: {}", first_lines(&e.to_string())))?;
-    compile_ast(&ast, ffi)
+    match mcx::catch(|| {
+        let ast = parse_policy_str(src, Version::V2).map_err(|e| format!("parse: {}", first_lines(&e.to_string())))?;
+        compile_ast(&ast, ffi)
+    }) {
+        Ok(r) => r,
+        Err(p) => Err(format!("front-end panic: {p}")),
+    }
 }
 
 pub fn compile_markdown(doc: &str, ffi: Ffi) -> Result<Module, String> {
-    let ast = parse_policy_document(doc).map_err(|e| format!("parse: {}", first_lines(&e.to_string())))?;
-    compile_ast(&ast, ffi)
+    match mcx::catch(|| {
+        let ast = parse_policy_document(doc).map_err(|e| format!("parse: {}", first_lines(&e.to_string())))?;
+        compile_ast(&ast, ffi)
+    }) {
+        Ok(r) => r,
+        Err(p) => Err(format!("front-end panic: {p}")),
+    }
 }
 
 fn compile_ast(ast: &aranya_policy_ast::Policy, ffi: Ffi) -> Result<Module, String> {
